@@ -320,7 +320,7 @@ func (g *c16Gen) litFor(t *c16Ty) string {
 
 func (g *c16Gen) enum() *c16Enum {
 	e := &c16Enum{Name: g.id("En")}
-	n := 1 + g.rng.Intn(4)
+	n := 1 + g.rng.Intn(6)
 	for i := 0; i < n; i++ {
 		mb := c16EnumMb{Key: fmt.Sprintf("%s_K%d", strings.ToUpper(e.Name), i), Kind: 2}
 		if g.rng.Intn(5) == 0 {
